@@ -18,7 +18,7 @@ TECHNIQUE = "TLA+ model (TLC): exhaustive bounded MC + generated cases replayed 
 
 CFG = """SPECIFICATION Spec
 CONSTANTS
-  Profiles = {"hstatus", "htoken", "jclass", "jsig", "jplace", "jexcl"}
+  Profiles = {"hstatus", "htoken", "jclass", "jsig", "jplace", "jexcl", "jseq", "hseq"}
   Big = %s
 INVARIANT ImplSatisfiesProp
 INVARIANT RedirectDiverges
